@@ -100,7 +100,7 @@ def decls_of_shape(shape):
                 out.append({"names": [], "type": base, "tag": None})
             else:
                 ty = base if f.rep == "req" else (("p", base) if f.rep == "opt" else ("s", base))
-                out.append({"names": [f.name], "type": ty, "tag": None})
+                out.append({"names": [f.name], "type": ty, "tag": getattr(f, "col", None)})
         return out
     root = body(shape.fields)
     return [("Root", root)] + decls
